@@ -287,6 +287,10 @@ func Discharge(fr *FuncResult, opts DischargeOpts) []OblResult {
 		var pcs [][]*Term
 		var goals []*Term
 		first := 0
+		chunk := 1
+		if n := len(o.Insts); n > 24 {
+			chunk = (n + 23) / 24
+		}
 		for k, in := range o.Insts {
 			if in.Goal.IsTrue() {
 				continue
@@ -296,7 +300,7 @@ func Discharge(fr *FuncResult, opts DischargeOpts) []OblResult {
 			}
 			pcs = append(pcs, pcTerms(in.PC))
 			goals = append(goals, in.Goal)
-			if len(pcs) == 6 {
+			if len(pcs) == chunk {
 				jobs = append(jobs, job{i, pcs, goals, first})
 				pcs, goals = nil, nil
 			}
